@@ -287,7 +287,10 @@ func main() {
 		"Session stream: PRNG sessions of 7..16 inputs (assignments, multi-line function declarations, calls, recovered panics, blank/comment inputs, special commands :debug/:inspect/:help/:copyright/:package/:unload/:quit; "+
 		"aborted inputs: 10 kinds of run-time panic, panics after side effects, panics in deferred calls, during another panic, compile and parse errors - each also inside :debug, and :inspect with and without an inspector) "+
 		"fed through EvalReader / EvalFile / Repl / a ReadParseEvalPrint loop over a line-by-line Readline / ParseEvalPrint per input, OptTrapPanic set, 4 option sets; oracle: the rec(input, value) log equals that of a fresh interpreter "+
-		"given one Eval per successful input (side effects before the panic for aborted ones), Run record and battery as above; non-trivial = at least one aborted input", nRandom))
+		"given one Eval per successful input (side effects before the panic for aborted ones), Run record and battery as above; non-trivial = at least one aborted input. "+
+		"Debugger stream: OptDebugger + scripted debugger; the 29 fixed programs + the first 8 (thorough 60) PRNG programs, every k in 1..min(N,12) and k=N (thorough min(N,400)): the form is run with Interp.Debug and as plain Eval of { \"break\"; form } "+
+		"answered with Step at every callback / Step at the first j (PRNG) callbacks then Continue, the hook panics at its k-th call; oracle: outcome equals the undebugged faulted evaluation, a later plain Eval of the compiled dsnap() sees debugger mode off while it runs, "+
+		"debugger never called back by later plain evaluations and the battery, battery and Run record as above; non-trivial = aborted by a panic while single-step mode was on", nRandom))
 	wd := vh.NewWatchdog(rep, 180*time.Second) // generous: the machine may be heavily loaded; a real hang is still reported
 	cw := vh.NewCases(a, "From Coq Require Import List Arith ZArith.\nFrom Verif Require Import C13.Model C12.Model.\nImport ListNotations.", "case", "mismatches", 400)
 	runCorpus(rep)
@@ -377,6 +380,15 @@ func main() {
 		nSess = 1500
 	}
 	sessionStream(a, rng.Fork(), rep, wd, nSess)
+	// debugger stream (debug.go): own PRNG so that the streams above keep their seeds
+	nDbgRandom := 8
+	if a.Thorough() {
+		nDbgRandom = 60
+	}
+	if len(all) < 29+nDbgRandom {
+		nDbgRandom = len(all) - 29
+	}
+	debugStream(a, vh.NewRng(a.Seed*7919+12), rep, wd, all[:29+nDbgRandom])
 	rep.Extra["histories_with_escaping_panic"] = escaped
 	rep.Extra["prng_programs_skipped_unbounded_recursion"] = skippedDivergent
 	rep.Write()
